@@ -144,3 +144,263 @@ def gen_lt_case(rng):
     classes.append("accum=clear" if accum == "clear" else
                    ("accum=0" if accum == 0 else ("accum=2^31-1" if accum == M - 1 else "accum=other")))
     return classes, rate, accel, time, accum
+
+
+# ---------------------------------------------------------------- T3 moves
+def _pick_t3_time(rng):
+    c = rng.random()
+    if c < 0.15:
+        t = rng.choice((1, 2, 3))
+        return "T=%d" % t, t
+    if c < 0.30:
+        return "T:4..20", rng.randint(4, 20)
+    if c < 0.60:
+        return "T:20..1e3", rng.randint(20, 1000)
+    if c < 0.85:
+        return "T:1e3..1e5", int(10 ** rng.uniform(3, 5))
+    if c < 0.95:
+        return "T:1e5..2^24", rng.randint(10 ** 5, 2 ** 24)
+    return "T:2^24..2^28", rng.randint(2 ** 24, 2 ** 28)
+
+
+def gen_t3_case(rng):
+    """One in-domain T3 move, or None (rejected draw).
+    Returns (classes, T, rate, accel, jerk, accum)."""
+    classes = []
+    tcls, time = _pick_t3_time(rng)
+    classes.append(tcls)
+    # jerk: bounded so that the rate parabola can fit in +-RMAX over T ticks
+    jmax = min(RMAX, (16 * RMAX) // (time * time) + 1)
+    c = rng.random()
+    if c < 0.12:
+        jerk = 0
+    elif c < 0.35:
+        jerk = rng.choice((1, -1, 2, -2, 3, -3, 5, -5, 6, -6, 7, -7, 11, -11, 12, -13))
+        jerk = max(-jmax, min(jmax, jerk))
+    elif c < 0.5:
+        jerk = rng.choice((jmax, -jmax, jmax - 1, -jmax + 1))
+    else:
+        jerk = rng.randint(-jmax, jmax)
+    # vertex placement decides accel (k* = 1/2 - a/j  =>  a = j/2 - j*k*)
+    vcls = None
+    if jerk != 0:
+        c = rng.random()
+        if c < 0.15:
+            kstar = rng.uniform(-2 * time - 5, 1.0)
+            vcls = "vertex before tick 1"
+        elif c < 0.27:
+            kstar = rng.uniform(1.0, 1.5)
+            vcls = "vertex in [1,1.5]"
+        elif c < 0.55:
+            kstar = rng.uniform(1.5, max(1.5, time - 1.5))
+            vcls = "vertex inside"
+        elif c < 0.68:
+            kstar = rng.uniform(max(1.0, time - 1.5), time)
+            vcls = "vertex in [T-1.5,T]"
+        elif c < 0.80:
+            kstar = rng.uniform(time, 3 * time + 5)
+            vcls = "vertex beyond T"
+        elif c < 0.90:
+            kstar = rng.randint(-3, time + 3)
+            vcls = "vertex on an integer"
+        else:
+            kstar = rng.randint(-3, time + 3) + 0.5
+            vcls = "vertex on a half-integer"
+        from fractions import Fraction
+        a_exact = Fraction(jerk, 2) - jerk * Fraction(kstar)
+        accel = int(round(a_exact))
+        if vcls in ("vertex on an integer", "vertex on a half-integer") and a_exact.denominator != 1:
+            # make the vertex exact: need j/2 - j*k* integral; retry with even jerk
+            jerk = jerk * 2 if abs(jerk * 2) <= jmax else jerk
+            a_exact = Fraction(jerk, 2) - jerk * Fraction(kstar)
+            accel = int(round(a_exact))
+    else:
+        amax = RMAX if time == 1 else (2 * RMAX) // (time - 1)
+        accel = rng.choice((0, 1, -1, rng.randint(-amax, amax), rng.randint(-amax, amax)))
+    if not -S.I32 <= accel < S.I32:
+        return None
+    # place the parabola vertically: compute its range relative to r0 over ticks 1..T
+    rel = [S.t3_rate(0, 0, 0, 1)]  # placeholder, replaced below
+    ticks = S.t3_candidate_ticks(accel, jerk, time)
+    rel = [k * accel + jerk * k * (k - 1) // 2 for k in ticks]
+    lo, hi = -RMAX - min(rel), RMAX - max(rel)
+    if lo > hi:
+        return None
+    c = rng.random()
+    if c < 0.15:
+        r0 = rng.choice((lo, hi))
+        classes.append("peak rate at +-(2^31-1)")
+    elif c < 0.30:
+        # first tick rate zero (clear rule levels 2 and 3)
+        r0 = -accel
+        if not lo <= r0 <= hi:
+            return None
+    elif c < 0.40:
+        # sign change inside the move: put zero rate at a random interior tick
+        k = rng.randint(1, time)
+        r0 = -(k * accel + jerk * k * (k - 1) // 2) + rng.choice((0, 1, -1))
+        if not lo <= r0 <= hi:
+            return None
+    else:
+        r0 = rng.randint(lo, hi)
+    rate = r0 + S.trunc_div(accel, 2) - S.trunc_div(jerk, 6)
+    if abs(rate) > RMAX:
+        return None
+    if rng.random() < 0.04:
+        # the three-level clear rule: r1 = r2 = 0 needs accel = -jerk
+        accel = -jerk
+        r0 = -accel
+        rate = r0 + S.trunc_div(accel, 2) - S.trunc_div(jerk, 6)
+        if rng.random() < 0.15:
+            jerk, accel, rate = 0, 0, 0
+    if not S.t3_in_domain(rate, accel, jerk, time):
+        return None
+    accum = pick_accum(rng)
+    if rng.random() < 0.10 and accum != "clear":
+        base = S.t3_total(rate, accel, jerk, time, 0)
+        target = rng.choice((0, M - 1))
+        accum = (target - base) % M
+        classes.append("total==kM" if target == 0 else "total==kM-1")
+    # labels
+    if vcls:
+        classes.append(vcls)
+    if jerk == 0:
+        classes.append("jerk=0")
+    else:
+        classes.append("jerk%%6=%d,%s" % (abs(jerk) % 6, "neg" if jerk < 0 else "pos"))
+    if accel == 0:
+        classes.append("accel=0")
+    else:
+        classes.append("accel %s %s" % ("odd" if accel % 2 else "even", "neg" if accel < 0 else "pos"))
+    r1 = S.t3_rate(rate, accel, jerk, 1)
+    r2 = S.t3_rate(rate, accel, jerk, 2)
+    r3 = S.t3_rate(rate, accel, jerk, 3)
+    if r1 == 0:
+        if r2 == 0:
+            classes.append("r1=r2=r3=0" if r3 == 0 else ("r1=r2=0,r3<0" if r3 < 0 else "r1=r2=0,r3>0"))
+        else:
+            classes.append("r1=0,r2<0" if r2 < 0 else "r1=0,r2>0")
+    r_t = S.t3_rate(rate, accel, jerk, time)
+    if r1 * r_t < 0:
+        classes.append("rate sign differs at the ends")
+    if jerk != 0:
+        v = S.t3_vertex(accel, jerk)
+        if 1 < v < time:
+            kv = [k for k in S.t3_candidate_ticks(accel, jerk, time) if k not in (1, time)]
+            if kv and max(abs(S.t3_rate(rate, accel, jerk, k)) for k in kv) > max(abs(r1), abs(r_t)):
+                classes.append("peak strictly inside the move")
+    classes.append("accum=clear" if accum == "clear" else "accum=given")
+    return classes, time, rate, accel, jerk, accum
+
+
+# ---------------------------------------------------------------- LM (step-limited) moves
+def gen_lm_case(rng):
+    """One step-limited request: (classes, steps, rate, accel, accum).  May be outside the
+    property's domain (the monitor filters with the exact oracle and counts the skips)."""
+    classes = []
+    c = rng.random()
+    if c < 0.03:
+        # the three (0,0,0) rules
+        kind = rng.choice(("steps=0", "rate=accel=0", "neg steps & neg rate"))
+        classes.append("cannot move: " + kind)
+        if kind == "steps=0":
+            return classes, 0, pick_edge_rate(rng), rng.randint(-10 ** 6, 10 ** 6), pick_accum(rng)
+        if kind == "rate=accel=0":
+            return classes, rng.choice((1, -1, rng.randint(-10 ** 6, 10 ** 6) or 1)), 0, 0, pick_accum(rng)
+        return classes, -rng.randint(1, 10 ** 6), -rng.randint(1, RMAX), rng.randint(-10 ** 5, 10 ** 5), pick_accum(rng)
+    lt_classes, rate, accel, time, accum = gen_lt_case(rng)
+    if rng.random() < 0.25 and time > 1:
+        # small |accel| makes exact boundary hits and long phases frequent
+        accel = rng.choice((1, -1, 2, -2, 3, -3, 0))
+        r1 = pick_edge_rate(rng)
+        r_end = r1 + (time - 1) * accel
+        if abs(r_end) > RMAX:
+            time = max(2, (RMAX - abs(r1)) // max(1, abs(accel)))
+        rate = lt_rate_from_r1(r1, accel)
+    if rng.random() < 0.08 and time >= 2:
+        # reversal between tick 1 and tick 2: r1 > 0 > r2 (or mirrored)
+        sign = rng.choice((1, -1))
+        a_mag = rng.randint(2, RMAX)
+        r1 = sign * rng.randint(1, a_mag - 1)
+        accel = -sign * a_mag
+        if abs(r1 + (time - 1) * accel) > RMAX:
+            time = max(2, 1 + (RMAX - abs(r1)) // a_mag)
+        rate = lt_rate_from_r1(r1, accel)
+    acc0 = S.lt_clear_value(rate, accel) if accum == "clear" else accum
+    k_rev = S.lm_reversal_tick(rate, accel)
+    target = None
+    if rng.random() < 0.22 and accum != "clear":
+        # constructed: the accumulator total at tick T is exactly on / next to a step boundary
+        base = S.lt_total(rate, accel, time, 0)
+        target = rng.choice((0, M - 1, 1, M - 2))
+        accum = (target - base) % M
+        acc0 = accum
+    taken = S._steps_taken(rate, accel, acc0, time, k_rev)
+    c = rng.random()
+    if c < 0.55:
+        steps = taken
+    elif c < 0.70:
+        steps = taken + 1
+    elif c < 0.80:
+        steps = max(1, taken - 1)
+    elif c < 0.90:
+        steps = rng.randint(1, max(1, taken))
+    else:
+        steps = rng.choice((1, 2, rng.randint(1, 2 ** 31 - 1)))
+    if steps <= 0:
+        steps = 1
+    if target is not None:
+        moving_fwd = S.lt_rate(rate, accel, time) >= 0
+        classes.append("total at T %s, moving %s" % (
+            {0: "== kM", M - 1: "== kM-1", 1: "== kM+1", M - 2: "== kM-2"}[target],
+            "forward" if moving_fwd else "backward"))
+    if rng.random() < 0.15 and rate <= 0:
+        classes.append("legacy negative steps")
+        return classes, -steps, -rate, -accel, accum
+    return classes, steps, rate, accel, accum
+
+
+def lm_classes(res, accum):
+    """Input-class labels derived from the oracle's analysis of an in-domain request."""
+    out = []
+    rate, accel, acc0, k_rev, d = res.rate, res.accel, res.acc0, res.k_rev, res.duration
+    r1 = S.lt_rate(rate, accel, 1)
+    if accel == 0:
+        out.append("accel=0")
+    elif abs(accel) <= 3:
+        out.append("|accel|<=3")
+    if r1 == 0:
+        out.append("r1=0")
+    if k_rev is None:
+        out.append("no reversal, %s" % ("forward" if (r1 > 0 or (r1 == 0 and accel > 0)) else "backward"))
+    else:
+        if k_rev == 1:
+            out.append("reversal between tick 1 and 2")
+        if d <= k_rev:
+            out.append("budget met before the reversal")
+        else:
+            s_rev = abs(S.lt_total(rate, accel, k_rev, acc0) // M - acc0 // M)
+            if s_rev == 0:
+                out.append("reversal before the first step")
+            else:
+                out.append("steps in both directions")
+    if k_rev is None and rate != 0 and accel != 0 and (rate > 0) != (accel > 0):
+        out.append("rate argument and accel of opposite sign but no reversal after tick 1")
+    total = S.lt_total(rate, accel, d, acc0)
+    moving_fwd = S.lt_rate(rate, accel, d) >= 0
+    if (total % M == 0 and moving_fwd) or (total % M == M - 1 and not moving_fwd):
+        out.append("exact boundary hit at the duration tick" + (" after a reversal" if (k_rev is not None and d > k_rev) else ""))
+    if d >= 2:
+        prev = S.lt_total(rate, accel, d - 1, acc0)
+        prev_fwd = S.lt_rate(rate, accel, d) >= 0
+        if (prev % M == M - 1 and prev_fwd) or (prev % M == 0 and not prev_fwd):
+            out.append("one unit short of the boundary at the tick before the duration"
+                       + (" after a reversal" if (k_rev is not None and d > k_rev) else ""))
+    if d == 1:
+        out.append("duration=1")
+    elif d >= 2 ** 24:
+        out.append("duration>=2^24")
+    if res.steps >= 2 ** 24:
+        out.append("steps>=2^24")
+    out.append("accum=clear" if accum == "clear" else "accum=given")
+    return out
